@@ -200,6 +200,11 @@ def to_val(v):
         raise Unsupported(f"name `{v.name}` is used as a value but is not bound by the contract (renamed local?)")
     raise Unsupported(f"to_val {v!r}")
 _float_is_zero = Function('float_is_zero', IntSort(), BoolSort()); _bytes_is_empty = Function('bytes_is_empty', IntSort(), BoolSort())
+_exc_is_falsy = Function('exception_object_is_falsy', IntSort(), BoolSort())
+def exc_objs(st): return st.ghost.get('__exc_objs', _z3.K(IntSort(), BoolVal(False)))
+def mark_exception(st, v):
+    """v (a Val) is an exception object that came out of user code: its truth value is not known"""
+    v = to_val(v); st.ghost = dict(st.ghost); st.ghost['__exc_objs'] = If(Val.is_ref(v), Store(exc_objs(st), Val.a(v), True), exc_objs(st))
 def truthy(v, st=None):
     """Python truth value. 0 / 0.0 / '' / b'' / timedelta(0) / None / empty list are false; objects without __bool__/__len__ are true.
     (floats and bytes are opaque ids: their zero-ness / emptiness is an uninterpreted predicate, so `if x:` on them has BOTH outcomes)"""
@@ -213,8 +218,12 @@ def truthy(v, st=None):
     if isinstance(v, str): return BoolVal(v != "")
     if isinstance(v, int): return BoolVal(v != 0)
     v = to_val(v)
+    # an EXCEPTION object raised by user code (task function, hook, dependency: allocated by raise_any / marked by mark_exception) may be of a class that
+    # defines __bool__/__len__, so `if exc:` is not `if exc is not None:` - both outcomes exist. Every other heap object the units create (messages,
+    # contexts, brokers, library objects, exceptions built by the repository's own constructors) defines neither and is true.
+    obj = Not(And(Select(exc_objs(st), Val.a(v)), _exc_is_falsy(Val.a(v)))) if st is not None else BoolVal(True)
     return If(Val.is_none(v), False, If(Val.is_boolv(v), Val.b(v), If(Val.is_intv(v), Val.i(v) != 0, If(Val.is_strv(v), Val.s(v) != Val.s(EMPTY_STR),
-           If(Val.is_td(v), Val.tus(v) != 0, If(Val.is_floatv(v), Not(_float_is_zero(Val.f(v))), If(Val.is_bytesv(v), Not(_bytes_is_empty(Val.y(v))), True)))))))
+           If(Val.is_td(v), Val.tus(v) != 0, If(Val.is_floatv(v), Not(_float_is_zero(Val.f(v))), If(Val.is_bytesv(v), Not(_bytes_is_empty(Val.y(v))), If(Val.is_ref(v), obj, True))))))))
 
 
 class Exec:
@@ -705,7 +714,15 @@ class Exec:
         def back(s2, v): s2.env = saved; return k(s2, v)
         K2 = {'ret': back, 'exc': lambda s2, x: (setattr(s2, 'env', saved), K['exc'](s2, x))[1]}
         return self.block(fdef.body, st, lambda s2: back(s2, None), K2)
+    TRANSPARENT_DECORATORS = {'staticmethod', 'classmethod', 'abstractmethod', 'overload', 'wraps', 'validate_call', 'validator', 'root_validator',
+                              'model_validator', 'field_validator', 'field_serializer', 'property'}
     def run(self, fdef, st, on_ret, on_exc):
+        # a function under a decorator that replaces it (lru_cache, cache, contextmanager, ...) is NOT its body: calls go to the wrapper,
+        # which may answer without running the body at all. The contract on the body then says nothing about the call -> undecided.
+        for d in getattr(fdef, 'decorator_list', []):
+            nm = ast.unparse(d).split('(')[0].split('.')[-1]
+            if nm not in self.TRANSPARENT_DECORATORS and nm not in getattr(self, 'allowed_decorators', ()):
+                raise Unsupported(f"{fdef.name} is wrapped by @{ast.unparse(d)}: calls reach the wrapper, not the verified body")
         K = {'ret': on_ret, 'exc': on_exc}
         return self.block(fdef.body, st, lambda st2: on_ret(st2, None), K)
 
@@ -769,8 +786,9 @@ def merge_states(states):
             if not all(kx in s.env for s in states): continue        # defined on some branches only: dropped (a later use is Unsupported, not unsound)
             m.env[kx] = _merge_vals(conds, [s.env[kx] for s in states])
         gk = set().union(*[set(s.ghost) for s in states])
-        if not all(set(s.ghost) | {'__approx'} == gk | {'__approx'} for s in states): raise MergeFail()
-        m.ghost = {kx: _merge_vals(conds, [s.ghost[kx] for s in states]) for kx in gk if kx != '__approx'}
+        if not all(set(s.ghost) | {'__approx', '__exc_objs'} == gk | {'__approx', '__exc_objs'} for s in states): raise MergeFail()
+        m.ghost = {kx: _merge_vals(conds, [s.ghost[kx] for s in states]) for kx in gk if kx not in ('__approx', '__exc_objs')}
+        if '__exc_objs' in gk: m.ghost['__exc_objs'] = _merge_vals(conds, [exc_objs(s) for s in states])
         ap = tuple(sorted({r_ for s in states for r_ in s.ghost.get('__approx', ())}))
         if ap: m.ghost['__approx'] = ap
         h = states[0].heap.copy()
@@ -791,7 +809,7 @@ def new_exc(st, clsname):
 def raise_any(st, base):
     """freshly allocated exception object of some (unknown, registered) subclass of `base`"""
     st.heap = st.heap.copy(); a = st.heap.next; st.heap.next = a + 1
-    st.pc.append(CLS.sub_expr(st.heap.cls_of[a], base)); return Val.ref(a)
+    st.pc.append(CLS.sub_expr(st.heap.cls_of[a], base)); mark_exception(st, Val.ref(a)); return Val.ref(a)
 def noop(ex, st, e, recv, args, kw, k, K): return k(st, None)
 def opaque(name):
     def h(ex, st, e, recv, args, kw, k, K): return k(st, fresh(name))
